@@ -583,14 +583,19 @@ class BuiltinMixin:
             m = self.map_of(s, recv)
             K = keys_of(m)
             self.stubs.keys_wf(self, s, m)
-            return ok(s, SIter(z3.Length(K), lambda j: mk(m, K[j]), 'dict'))
+            it = SIter(z3.Length(K), lambda j: mk(m, K[j]), 'dict')
+            it.map = m
+            it.view = mk.__name__ if hasattr(mk, '__name__') else ''
+            return ok(s, it)
         return self._dictlike(st, recv, f, readonly=True)
 
     def m_items(self, st, recv, pos, kw):
         return self._keys_iter(st, recv, lambda m, k: V.tuple(mk_seq([V.str(k), z3.Select(m, k)])))
 
     def m_keys(self, st, recv, pos, kw):
-        return self._keys_iter(st, recv, lambda m, k: V.str(k))
+        def keys_view(m, k):
+            return V.str(k)
+        return self._keys_iter(st, recv, keys_view)
 
     def m_values(self, st, recv, pos, kw):
         return self._keys_iter(st, recv, lambda m, k: z3.Select(m, k))
